@@ -10,7 +10,8 @@ use std::io::{BufRead, Write};
 use std::path::Path;
 
 fn count_files(dir: &Path) -> usize {
-    std::fs::read_dir(dir).map(|rd| rd.flatten().filter(|e| e.file_type().map(|t| !t.is_dir()).unwrap_or(false)).count()).unwrap_or(0)
+    // cache entries never start with a dot (the `.kismet_temp` planted as a FILE by the F flag is not one)
+    std::fs::read_dir(dir).map(|rd| rd.flatten().filter(|e| e.file_type().map(|t| !t.is_dir()).unwrap_or(false) && !e.file_name().to_string_lossy().starts_with('.')).count()).unwrap_or(0)
 }
 
 pub fn from_stdin() {
@@ -33,6 +34,10 @@ pub fn from_stdin() {
         // directory, which is then the directory created for this case)
         let empty_path = f[3].starts_with('E');
         let f3 = f[3].trim_start_matches('E');
+        // a leading 'F': `.kismet_temp` exists as a regular FILE (temp cleanup fails with ENOTDIR on
+        // every maintenance); values are staged in a sibling directory and the sequence goes on after errors
+        let temp_is_file = f3.starts_with('F');
+        let f3 = f3.trim_start_matches('F');
         let all_read = f3.starts_with('A');
         let ops = f3.trim_start_matches('A');
         let draws: Vec<u64> = if f[4] == "-" { vec![] } else { f[4].split(',').map(|s| s.parse().unwrap()).collect() };
@@ -54,6 +59,11 @@ pub fn from_stdin() {
             let m = filetime::FileTime::from_unix_time(1_599_999_000, 0);
             filetime::set_file_times(&p, base, m).unwrap();
         }
+        let stage = root.path().join(format!("g{}_stage", idx));
+        if temp_is_file {
+            std::fs::write(dir.join(".kismet_temp"), "not a directory").unwrap();
+            std::fs::create_dir_all(&stage).unwrap();
+        }
         let capu = if cap > usize::MAX as u64 { usize::MAX } else { cap as usize };
         let cache = if empty_path {
             std::env::set_current_dir(&dir).unwrap();
@@ -69,11 +79,16 @@ pub fn from_stdin() {
         for (i, op) in ops.chars().enumerate() {
             let name = match op { 's' | 'p' => if i % 3 == 1 { format!("w{}.v1.dat", i) } else { format!("w{}", i) }, _ => "w_first".to_string() };
             let existed = dir.join(&name).exists();
-            let td = cache.temp_dir().unwrap().to_path_buf();
+            let td = if temp_is_file { stage.clone() } else { cache.temp_dir().unwrap().to_path_buf() };
             let src = td.join(format!("src{}", i));
             std::fs::write(&src, "v").unwrap();
             let r = match op { 's' | 'S' => cache.set(&name, &src), _ => cache.put(&name, &src) };
             if r.is_err() {
+                if temp_is_file {
+                    let _ = std::fs::remove_file(&src);
+                    res.push(format!("ERR:{}", count_files(&dir)));
+                    continue;
+                }
                 res.push("ERR".to_string());
                 break;
             }
@@ -86,5 +101,6 @@ pub fn from_stdin() {
             std::env::set_current_dir(root.path()).unwrap();
         }
         let _ = std::fs::remove_dir_all(&dir);
+        let _ = std::fs::remove_dir_all(&stage);
     }
 }
